@@ -545,6 +545,8 @@ func runProperty(eng *Engine, prop string, timeout time.Duration, dir string) *p
 		var mu sync.Mutex
 		var wg sync.WaitGroup
 		sem := make(chan struct{}, parallelism())
+		satIsFinal = true
+		defer func() { satIsFinal = false }()
 		for _, j := range jobs {
 			j := j
 			wg.Add(1)
@@ -567,6 +569,8 @@ func runProperty(eng *Engine, prop string, timeout time.Duration, dir string) *p
 
 func runCanary(eng *Engine, dir string) []string {
 	var bad []string
+	satIsFinal = true
+	defer func() { satIsFinal = false }()
 	funcs, lemmas := propFuncs(eng, "CANARY")
 	for _, l := range lemmas {
 		o, err := eng.lemmaObligation(l)
@@ -614,7 +618,11 @@ func runCheck(prop, tier, repo, verif string, verbose bool, tmo int) int {
 		fmt.Println(n)
 	}
 	dir := scratchDir()
-	defer os.RemoveAll(dir)
+	if os.Getenv("CSVQVC_KEEP") == "" {
+		defer os.RemoveAll(dir)
+	} else {
+		fmt.Println("scratch:", dir)
+	}
 	// claimed obligations discharged within 5 s when the lock was taken; the check allows them four times that
 	timeout := 20 * time.Second
 	if tier == "thorough" {
@@ -917,6 +925,26 @@ func runLock(props []string, repo, verif string, tmo int) int {
 				if r2.res.Status == "unsat" {
 					if i, ok := idx[r2.o.Name]; ok && (pr.results[i].res.Status != "unsat" || r2.res.Seconds < pr.results[i].res.Seconds) {
 						pr.results[i] = r2
+					}
+				}
+			}
+		}
+		// stability: an obligation that needed more than 1.5 s is solved a second time; it is claimed only if it
+		// discharges within 5 s both times (slow queries are the unstable ones)
+		{
+			var slow []*Obligation
+			sidx := map[string]int{}
+			for i, r := range pr.results {
+				if r.res.Status == "unsat" && r.res.Seconds > 1.5 && r.res.Seconds <= 5 {
+					slow = append(slow, r.o)
+					sidx[r.o.Name] = i
+				}
+			}
+			if len(slow) > 0 {
+				for _, r2 := range solveAll(eng, slow, timeout, dir, 4) {
+					if i, ok := sidx[r2.o.Name]; ok && !(r2.res.Status == "unsat" && r2.res.Seconds <= 5) {
+						fmt.Printf("UNSTABLE %s %s (%.1fs then %s %.1fs)\n", p, r2.o.Name, pr.results[i].res.Seconds, r2.res.Status, r2.res.Seconds)
+						pr.results[i].res.Seconds = 999
 					}
 				}
 			}
